@@ -365,18 +365,20 @@ def stepXAny (x : XState) : AnyOp → XState × Out
 /-- What a request path below `file_system` denotes: an operation (trailing extra elements are ignored by every leaf
 handler), or — for a path that ends early or names an unknown request — the answer alone (the state is untouched).
 `RequestManager.__call__` answers `unreachable` for an empty path or an unknown key, a validator answers `failure` when
-the options it needs are missing; the six leaf handlers WITHOUT a validator (`create file/folder`, `restore file/folder`,
-`access`, `folder/F/delete`) index the missing option and raise `IndexError` — modelled as `raised`, as the code is
-(an observation for property C05, not part of C15's statement). -/
+the options it needs are missing, and a leaf handler that reads an option the request does not carry (`create file/folder`,
+`restore file/folder`, `access`, `folder/F/delete` have no validator) is answered `failure` as well: handlers get their options as
+`_RequestOptions`, whose out-of-range read raises `RequestOptionsError`, which `__call__` turns into a `failure` response (repair
+F-C05-2; every such handler reads its options before it changes anything). No request path raises any more; `raised` remains
+an outcome of the direct Python API only (`ApiOp`). -/
 def resolve (s : State) : List String → Sum Op Out
   | [] => .inr .unreachable
   | "create" :: rest =>
     match rest with
     | [] => .inr .unreachable
     | "file" :: F :: x :: force :: _ => .inl (.createFile F x (force == "1"))
-    | "file" :: _ => .inr .raised
+    | "file" :: _ => .inr .failure
     | "folder" :: F :: _ => .inl (.createFolder F)
-    | "folder" :: _ => .inr .raised
+    | "folder" :: _ => .inr .failure
     | _ => .inr .unreachable
   | "delete" :: rest =>
     match rest with
@@ -390,18 +392,18 @@ def resolve (s : State) : List String → Sum Op Out
     match rest with
     | [] => .inr .unreachable
     | "file" :: F :: x :: _ => .inl (.restoreFile F x)
-    | "file" :: _ => .inr .raised
+    | "file" :: _ => .inr .failure
     | "folder" :: F :: _ => .inl (.restoreFolder F)
-    | "folder" :: _ => .inr .raised
+    | "folder" :: _ => .inr .failure
     | _ => .inr .unreachable
   | "access" :: F :: x :: _ => .inl (.access F x)
-  | "access" :: _ => .inr .raised
+  | "access" :: _ => .inr .failure
   | "folder" :: [] => .inr .failure
   | "folder" :: F :: rest =>
     match rest with
     | [] => .inl (.folderVerb F .other)
     | "delete" :: x :: _ => .inl (.folderDelete F x)
-    | "delete" :: [] => .inr (viaFolder s F (fun g => some (g, .raised))).2
+    | "delete" :: [] => .inr (viaFolder s F (fun g => some (g, .failure))).2
     | "file" :: [] => .inr (viaFolder s F (fun g => some (g, .failure))).2
     | "file" :: x :: [] => .inl (.fileVerb F x .other)
     | "file" :: x :: v :: _ => .inl (.fileVerb F x (verbOf v))
